@@ -396,7 +396,7 @@ func c14Replay(raw json.RawMessage) string {
 func c14Run(c *mc.Check) {
 	shapes := c14Shapes(c.Thorough())
 	flags := c14AllFlags()
-	f := c.Family("datasets-x-flags", fmt.Sprintf("%d dataset shapes from the grammar (1–3 input files incl. the same path twice and label=path, 1–2 configuration blocks per file with goos a/b or a note key varying inside a cell, 1–3 benchmarks A, B/k=1, B/k=2-4, units ns/op, B/op, x/op with assume=exact, 1/2/5 repetitions, shifted/equal/zero/negative values, a benchmark missing from one file) × the full product of %d flag combinations (-table {.config, goos, \"\"} × -row {.fullname, .name, /k} × -col {.file, goos, /k} × -ignore {\"\", note, goos} × -filter {*, .unit:ns/op, /k:1, -.name:A} × -alpha {0.05, 1} × -confidence {0.95, 0.5}), each run through the real benchstat entry point with CSV output: exactly the expected tables, rows, columns and cells; every cell's centre, interval, delta against the first observed column, p/n string and warnings equal benchmath applied to exactly the expected samples; geomean row and its warnings; 'benchmarks vary in' on exactly the cells merging results that differ in a residue key, naming exactly those keys; non-trivial = runs with ≥2 columns", len(shapes), len(flags)), c14Replay)
+	f := c.Family("datasets-x-flags", fmt.Sprintf("%d dataset shapes from the grammar (1–3 input files incl. the same path twice and label=path, 1–2 configuration blocks per file with goos a/b or a note key varying inside a cell, 1–3 benchmarks A, B/k=1, B/k=2-4, units ns/op, B/op, x/op with assume=exact, 1/2/5 repetitions, shifted/equal/zero/negative values, a benchmark missing from one file) × the full product of %d flag combinations (-table {.config, goos, \"\"} × -row {.fullname, .name, /k} × -col {.file, goos, /k} × -ignore {\"\", note, goos, .fullname, .config} × -filter {*, .unit:ns/op, /k:1, -.name:A} × -alpha {0.05, 1} × -confidence {0.95, 0.5}), each run through the real benchstat entry point with CSV output: exactly the expected tables, rows, columns and cells; every cell's centre, interval, delta against the first observed column, p/n string and warnings equal benchmath applied to exactly the expected samples; geomean row and its warnings; 'benchmarks vary in' on exactly the cells merging results that differ in a residue key, naming exactly those keys; non-trivial = runs with ≥2 columns", len(shapes), len(flags)), c14Replay)
 	if c.Replaying() {
 		return
 	}
